@@ -1,6 +1,16 @@
 """The pipeline-P property checks (which profile, which clauses)."""
 import pcheck
 
+
+def _first_math(t):
+    if t["k"] == "Math":
+        return t["a"]
+    for c in t["ch"]:
+        r = _first_math(c)
+        if r:
+            return r
+    return ""
+
 SPECS = {
     "C01": pcheck.PSpec(
         "C01",
@@ -51,6 +61,7 @@ SPECS = {
         events={"quick": 4, "thorough": 10},
         cap={"quick": 800, "thorough": 30000},
         math=True,
+        stratify=_first_math,
     ),
     "C13": pcheck.PSpec(
         "C13",
